@@ -1,21 +1,29 @@
 import importlib
 import os
+import re
 import sys
 
-sys.path.insert(0, os.path.dirname(os.path.abspath(__file__)))
+HERE = os.path.dirname(os.path.abspath(__file__))
+sys.path.insert(0, HERE)
 
-# property id -> (module under lib/, evidence level)
-TABLE = {
-    "C01": ("p_routing", "model_checking"),
-    "C02": ("p_routing", "model_checking"),
-    "C03": ("p_routing", "model_checking"),
-    "C04": ("p_routing", "model_checking"),
-    "C05": ("p_ring", "model_checking"),
-    "C08": ("p_life", "model_checking"),
-    "C09": ("p_gossip", "model_checking"),
-}
+
+def table():
+    """property id -> (module under lib/, evidence level). Every lib/p_*.py declares PROPS = {"Cxx": "<level>", ...}."""
+    t = {}
+    for fn in sorted(os.listdir(HERE)):
+        if not (fn.startswith("p_") and fn.endswith(".py")):
+            continue
+        src = open(os.path.join(HERE, fn)).read()
+        m = re.search(r"^PROPS\s*=\s*(\{.*?\})\s*$", src, re.M | re.S)
+        if not m:
+            continue
+        for pid, level in eval(m.group(1)).items():
+            t[pid] = (fn[:-3], level)
+    return t
+
 
 if __name__ == "__main__":
+    TABLE = table()
     if len(sys.argv) < 2 or sys.argv[1] not in TABLE:
         print("usage: ./check <%s> --tier quick|thorough" % "|".join(sorted(TABLE)), file=sys.stderr)
         sys.exit(2)
